@@ -377,10 +377,14 @@ func vfc41Run(r *vfkit.Run, c int, cs vfc41Case, ctx context.Context, rangeCodec
 			r.Violation(c, "range:"+fp, what+" ("+cs.Class+")", wit(subs, "splitQuery"))
 			return
 		}
+		seenQ := map[string]bool{}
 		for i, q := range reqs {
-			if what := vfc41CheckQuery(cs.Query, cs.Start, cs.End, q.GetQuery()); what != "" {
-				r.Violation(c, "range:query-changed", fmt.Sprintf("sub-request #%d: %s", i, what), wit(subs, "splitQuery"))
-				return
+			if !seenQ[q.GetQuery()] { // every distinct sub-request query text is decided once
+				seenQ[q.GetQuery()] = true
+				if what := vfc41CheckQuery(cs.Query, cs.Start, cs.End, q.GetQuery()); what != "" {
+					r.Violation(c, "range:query-changed", fmt.Sprintf("sub-request #%d: %s", i, what), wit(subs, "splitQuery"))
+					return
+				}
 			}
 			if sr, ok := q.(SplitRequest); !ok || sr.GetSplitInterval() != interval {
 				r.Violation(c, "range:split-interval-not-recorded", fmt.Sprintf("sub-request #%d does not carry the split interval", i), wit(subs, "splitQuery"))
